@@ -1166,7 +1166,7 @@ func (g *plGen) enumGrowthScene() {
 	g.vals = append(g.vals, v1, v2)
 	g.emit(sprintf("pl enum.add %d %d", e, v1))
 	g.emit(sprintf("pl enum.add %d %d", e, v2))
-	nMsgs := 1 + r.Intn(2)
+	nMsgs := 1 + pick(r, 0, 1, 1)
 	var ms []int
 	for k := 0; k < nMsgs; k++ {
 		m, s, f := g.fresh(), g.fresh(), g.fresh()
@@ -1225,7 +1225,7 @@ func (g *plGen) enumGrowthScene() {
 	// one referencing signal moves to another enum while the other keeps this one; then calls the
 	// enum must REFUSE (used name / used index / unknown value / rename to a used name): the cause
 	// must be the documented one, whatever earlier accepted size changes left behind
-	if len(ms) > 1 && r.Intn(2) == 0 {
+	if len(ms) > 1 {
 		e2 := g.fresh()
 		g.emit(sprintf("pl enum.new %d", e2))
 		g.enums = append(g.enums, e2)
